@@ -1,6 +1,6 @@
 (* C07 -- definitions freeze at first execution; clones are fully isolated.
    Only the property theorems; proofs are in proofs/EngineFacts.v. *)
-From V Require Import lib.Base model.TContext model.TTree model.TEscaper model.Engine spec.EngineSpec proofs.EngineFacts proofs.EngineHistFacts proofs.EngineInvFacts.
+From V Require Import lib.Base model.TContext model.TTree model.TEscaper model.Engine spec.EngineSpec proofs.EngineFacts proofs.EngineHistFacts proofs.EngineInvFacts proofs.EngineOkFacts proofs.EngineIsoFacts.
 
 (* in EVERY world: once the set is marked executed, Parse on any of its templates fails and
    changes nothing at all *)
@@ -64,3 +64,23 @@ Theorem C07_handles_registered : forall ops h obj,
   handle w h = Some obj -> registered w obj \/ husk w obj.
 Proof. exact handles_registered. Qed.
 Print Assumptions C07_handles_registered.
+
+(* isolation, for the template OBJECTS (status, text template, name space of every handle's template): in
+   every well-formed - hence every reachable - world, an operation through a handle of one name space never
+   touches a template object that lives in another name space (a clone, the original, an unrelated set) ... *)
+Theorem C07_other_sets_objects_untouched : forall w op o,
+  Inv w -> (o < length (w_tmpl w))%nat ->
+  (forall a, op_ns w op = Some a -> h_ns (get_tmpl w o) <> a) ->
+  get_tmpl (fst (step w op)) o = get_tmpl w o.
+Proof. exact other_sets_objects_untouched. Qed.
+Print Assumptions C07_other_sets_objects_untouched.
+
+(* ... nor does any history of such operations.  (That the TREES of the other set's text templates are not
+   touched either needs an ownership invariant for text objects and associations that is not proved; on
+   the implementation it is decided by the projection oracle of the hist07 stream.) *)
+Theorem C07_other_sets_objects_untouched_hist : forall ops w o,
+  Inv w -> (o < length (w_tmpl w))%nat ->
+  other_ns_hist w (h_ns (get_tmpl w o)) ops ->
+  get_tmpl (run_from w ops) o = get_tmpl w o.
+Proof. exact other_sets_objects_untouched_hist. Qed.
+Print Assumptions C07_other_sets_objects_untouched_hist.
